@@ -251,6 +251,86 @@ pub fn explore(p: &Program, nthreads: usize, per_item: bool, own_too: bool, max_
     }
 }
 
+/// Part (c): see the comment at its call site.
+fn free_running(ctx: &Ctx) -> serde_json::Value {
+    use crate::values::list;
+    let world = Arc::new(World::sverif());
+    let schema = Arc::new(engine::parse_schema(dataset::SVERIF_TEXT));
+    // 120 vertices; property s cycles through 6 regex patterns / strings, l through small lists
+    let mut ds = Dataset::new("ring120");
+    let pats = ["a", "b+", "^c", "[ab]", ".*", "("];
+    for k in 0..120usize {
+        let v = ds.add(if k % 2 == 0 { "A" } else { "B" }, vec![("id", i(k as i64)), ("n", i((k % 7) as i64)), ("s", s(pats[k % pats.len()])), ("l", list(vec![i((k % 3) as i64), i((k % 5) as i64)])), ("ls", FV::Null), ("f", FV::Null), ("b", FV::Null)]);
+        let _ = v;
+    }
+    for k in 0..120usize {
+        ds.edge(k, "next", (k + 1) % 120);
+        ds.edge(k, "next", (k + 5) % 120);
+        ds.edge(k, "one", (k + 2) % 120);
+    }
+    let ds = Arc::new(ds);
+    let queries = [
+        ("{ V { id @output s @tag(name: \"p\") next { s @filter(op: \"regex\", value: [\"%p\"]) id @output(name: \"i2\") } } }", args(&[])),
+        ("{ V { id @output s @tag(name: \"p\") next { s @filter(op: \"not_regex\", value: [\"%p\"]) id @output(name: \"i2\") } } }", args(&[])),
+        ("{ V { id @output s @filter(op: \"regex\", value: [\"$r\"]) next @fold @transform(op: \"count\") @output(name: \"c\") { n @filter(op: \">=\", value: [\"$k\"]) } } }", args(&[("r", s("[ab]")), ("k", i(3))])),
+        ("{ V { id @output l @tag(name: \"t\") n @tag(name: \"m\") next @fold { n @filter(op: \"one_of\", value: [\"%t\"]) id @output(name: \"ids\") one @optional { n @filter(op: \"<=\", value: [\"%m\"]) id @output(name: \"o\") } } } }", args(&[])),
+        ("{ V { id @output __typename @output(name: \"ty\") next @recurse(depth: 2) { n @output(name: \"rn\") } } }", args(&[])),
+    ];
+    let compiled: Vec<(Arc<IndexedQuery>, Args, Vec<Row>, String)> = queries
+        .iter()
+        .map(|(q, a)| {
+            let iq = frontend::parse(&schema, q).unwrap_or_else(|e| crate::common::machinery(&format!("C24 free-running query rejected: {e}")));
+            let rows = run_rows(&world, &ds, &iq, a, false);
+            let ir = format!("{:?}", iq.ir_query);
+            (iq, a.clone(), rows, ir)
+        })
+        .collect();
+    let compiled = Arc::new(compiled);
+    let nthreads = 8usize;
+    let reps = ctx.tier.pick(6usize, 60usize);
+    let runs = Arc::new(AtomicU64::new(0));
+    let diffs: Arc<Mutex<Vec<String>>> = Arc::new(Mutex::new(vec![]));
+    let barrier = Arc::new(std::sync::Barrier::new(nthreads));
+    let handles: Vec<_> = (0..nthreads)
+        .map(|t| {
+            let (schema, world, ds, compiled, runs, diffs, barrier) = (schema.clone(), world.clone(), ds.clone(), compiled.clone(), runs.clone(), diffs.clone(), barrier.clone());
+            let texts: Vec<String> = queries.iter().map(|(q, _)| q.to_string()).collect();
+            std::thread::spawn(move || {
+                barrier.wait();
+                for r in 0..reps {
+                    // stagger which query each thread runs so that different patterns overlap
+                    let k = (t + r) % compiled.len();
+                    let (iq, a, want, ir) = &compiled[k];
+                    let outcome = crate::common::catch(|| {
+                        let own = frontend::parse(&schema, &texts[k]).expect("compiles");
+                        (format!("{:?}", own.ir_query) == *ir, run_rows(&world, &ds, iq, a, false))
+                    });
+                    runs.fetch_add(1, Ordering::Relaxed);
+                    match outcome {
+                        Ok((same_ir, rows)) => {
+                            if !same_ir {
+                                diffs.lock().unwrap().push(format!("thread {t} rep {r}: IR of query {k} differs from the sequential compilation"));
+                            }
+                            if rows != *want {
+                                diffs.lock().unwrap().push(format!("thread {t} rep {r}: query {k} returned {} rows, the sequential run {} (or different contents)", rows.len(), want.len()));
+                            }
+                        }
+                        Err(p) => diffs.lock().unwrap().push(format!("thread {t} rep {r}: panic {}", p.message.lines().next().unwrap_or(""))),
+                    }
+                }
+            })
+        })
+        .collect();
+    for h in handles {
+        let _ = h.join();
+    }
+    let diffs = diffs.lock().unwrap().clone();
+    if let Some(first) = diffs.first() {
+        ctx.fail("free-running-threads-change-results", first, json!({"schema_id": "S-verif", "dataset": "ring120 (built in props/c24.rs)", "queries": queries.iter().map(|(q, _)| q.to_string()).collect::<Vec<_>>(), "threads": nthreads, "observed": diffs.iter().take(8).collect::<Vec<_>>(), "expected": "every concurrent run equals the sequential run", "note": "found by the free-running (sampling) supplement; re-run the check to reproduce"}));
+    }
+    json!({"threads": nthreads, "runs": runs.load(Ordering::Relaxed), "runs_differing": diffs.len(), "queries": queries.len(), "dataset_vertices": 120})
+}
+
 /// number of interleavings of threads with the given numbers of scheduling points
 fn interleavings(points: &[u64]) -> f64 {
     let mut total = 0u64;
@@ -327,6 +407,12 @@ pub fn run(ctx: &Ctx) -> ! {
             samples.lock().unwrap().offer(|| json!({"program": p.name, "shared_query": p.shared_query, "threads": 2, "scheduling_points_per_thread": out.yields_per_thread, "schedules": out.schedules, "per_item_yields": per_item}));
         }
     });
+    // ---- (c) free-running supplement (SAMPLING, not part of the exhaustive bound): real OS threads,
+    // released together, repeatedly compile and execute shared queries over a larger dataset. The
+    // DFS above interleaves at adapter-call granularity; a race between two statements inside one
+    // engine step (e.g. check-then-act on a global cache) is only reachable here. A difference from
+    // the sequential result is a real violation, but a pass of this part proves nothing.
+    let free = free_running(ctx);
     done.store(true, Ordering::Relaxed);
     let mut d = details.lock().unwrap().clone();
     d.sort_by_key(|x| x.to_string());
@@ -340,6 +426,7 @@ pub fn run(ctx: &Ctx) -> ! {
     c.insert("configurations".into(), json!(d));
     c.insert("samples".into(), json!(samples.lock().unwrap().items));
     c.insert("static_send_sync_assertions".into(), json!(17));
+    c.insert("free_running_supplement (sampling, outside the exhaustive bound)".into(), free);
     c.insert("exhaustive".into(), json!(!any_capped.load(Ordering::Relaxed)));
     let _ = BTreeMap::<u8, u8>::new();
     ctx.finish(
